@@ -1,6 +1,9 @@
 //! C08 correspondence: real `toml::from_str::<T>` for the public CNB types on a corpus of valid documents
 //! (optional-key subsets, nested metadata) and every single-point mutation of them.
-//! fields = [type name, document as a value tree]; observation = `reject` | `ok <decoded value>`.
+//! fields = [type name, document as a value tree, optionally hex(TOML text of that tree in some layout)];
+//! observation = `reject` | `ok <decoded value>` (the same through `toml::from_str::<T>` and libcnb-common's `read_toml_file::<T>`,
+//! else `paths-differ …`); `layout-mismatch` when the supplied text does not denote the tree.
+use cnbv::tomllayout::{self, Style};
 use cnbv::tomlwire::{V, from_wire, to_wire};
 use cnbv::*;
 use libcnb_data::buildpack::{Buildpack, BuildpackDescriptor, BuildpackTarget, ComponentBuildpackDescriptor, CompositeBuildpackDescriptor, Distro, Group, License, Order, Stack};
@@ -72,30 +75,53 @@ fn package(p: &PackageDescriptor) -> V {
         ("platform", V::rec(vec![("os", V::S(match p.platform.os { PlatformOs::Linux => "linux", PlatformOs::Windows => "windows" }.to_string()))]))])
 }
 
-fn parse_as(ty: &str, text: &str) -> Option<String> {
-    fn go<T: serde::de::DeserializeOwned>(text: &str, dump: impl Fn(&T) -> V) -> String {
+fn parse_as(ty: &str, text: &str, via_file: bool) -> Option<String> {
+    fn go<T: serde::de::DeserializeOwned>(text: &str, via_file: bool, dump: impl Fn(&T) -> V) -> String {
+        if via_file {
+            // the way libcnb itself reads these documents: libcnb_common::toml_file::read_toml_file
+            let Ok(mut f) = tempfile::Builder::new().prefix("c08-").suffix(".toml").tempfile() else { return "io-error:tempfile".into() };
+            if std::io::Write::write_all(&mut f, text.as_bytes()).is_err() || std::io::Write::flush(&mut f).is_err() { return "io-error:write".into(); }
+            return match libcnb_common::toml_file::read_toml_file::<T>(f.path()) {
+                Ok(v) => format!("ok {}", dump(&v).render()),
+                Err(libcnb_common::toml_file::TomlFileError::TomlDeserializationError(_)) => "reject".to_string(),
+                Err(_) => "io-error:read".to_string(),
+            };
+        }
         match toml::from_str::<T>(text) { Ok(v) => format!("ok {}", dump(&v).render()), Err(_) => "reject".to_string() }
     }
     Some(match ty {
-        "BuildpackDescriptor" => go::<BuildpackDescriptor<GenericMetadata>>(text, descriptor),
-        "ComponentBuildpackDescriptor" => go::<ComponentBuildpackDescriptor<GenericMetadata>>(text, component),
-        "CompositeBuildpackDescriptor" => go::<CompositeBuildpackDescriptor<GenericMetadata>>(text, composite),
-        "BuildpackPlan" => go::<BuildpackPlan>(text, plan),
-        "Launch" => go::<Launch>(text, launch),
-        "Process" => go::<Process>(text, process),
-        "LayerContentMetadata" => go::<LayerContentMetadata<GenericMetadata>>(text, layer),
-        "Store" => go::<Store>(text, store),
-        "PackageDescriptor" => go::<PackageDescriptor>(text, package),
-        "BuildpackTarget" => go::<BuildpackTarget>(text, target),
+        "BuildpackDescriptor" => go::<BuildpackDescriptor<GenericMetadata>>(text, via_file, descriptor),
+        "ComponentBuildpackDescriptor" => go::<ComponentBuildpackDescriptor<GenericMetadata>>(text, via_file, component),
+        "CompositeBuildpackDescriptor" => go::<CompositeBuildpackDescriptor<GenericMetadata>>(text, via_file, composite),
+        "BuildpackPlan" => go::<BuildpackPlan>(text, via_file, plan),
+        "Launch" => go::<Launch>(text, via_file, launch),
+        "Process" => go::<Process>(text, via_file, process),
+        "LayerContentMetadata" => go::<LayerContentMetadata<GenericMetadata>>(text, via_file, layer),
+        "Store" => go::<Store>(text, via_file, store),
+        "PackageDescriptor" => go::<PackageDescriptor>(text, via_file, package),
+        "BuildpackTarget" => go::<BuildpackTarget>(text, via_file, target),
         _ => return None,
     })
 }
 
 fn run_case(f: &[String]) -> String {
+    if f.len() != 2 && f.len() != 3 { return "bad-case".into(); }
     let Some(doc) = from_wire(&f[1]) else { return "bad-case".into() };
-    // the document reaches the real parser as TOML text
-    let Ok(text) = toml::to_string(&doc) else { return "unserialisable-document".into() };
-    parse_as(&f[0], &text).unwrap_or_else(|| "bad-case".into())
+    // the document reaches the real parser as TOML text: the toml crate's own spelling, or the layout the case carries
+    let text = if f.len() == 3 {
+        let Some(t) = unhex(&f[2]).and_then(|b| String::from_utf8(b).ok()) else { return "bad-case".into() };
+        match toml::from_str::<Value>(&t) { Ok(back) if tomllayout::same_tree(&back, &doc) => t, _ => return "layout-mismatch".into() }
+    } else {
+        let Ok(t) = toml::to_string(&doc) else { return "unserialisable-document".into() };
+        t
+    };
+    let Some(a) = parse_as(&f[0], &text, false) else { return "bad-case".into() };
+    // cases that carry their text are also read the way libcnb reads these documents (from a file, `read_toml_file`)
+    if f.len() == 3 {
+        let Some(b) = parse_as(&f[0], &text, true) else { return "bad-case".into() };
+        if a != b { return format!("paths-differ from_str=<{a}> read_toml_file=<{b}>"); }
+    }
+    a
 }
 
 // ---------------------------------------------------------------- corpus
@@ -292,7 +318,73 @@ fn get<'a>(v: &'a Value, p: &[Seg]) -> &'a Value {
 fn in_free_form(p: &[Seg]) -> bool { p.iter().any(|s| matches!(s, Seg::Key(k) if k == "metadata")) }
 
 /// every single-point mutation of a document: (kind, mutated document)
-fn mutations(ty: &str, doc: &Value) -> Vec<(String, Value)> {
+fn mutations(ty: &str, doc: &Value) -> Vec<(String, Value)> { mutations_x(ty, doc, false, false) }
+
+fn long_string(n: usize) -> String { (0..n).map(|j| ['a', 'Z', '7', '-', '.', 'x'][j % 6]).collect() }
+fn fullwidth(k: &str) -> String { k.chars().map(|c| if ('!'..='~').contains(&c) { char::from_u32(c as u32 + 0xfee0).unwrap() } else { c }).collect() }
+
+/// spellings close to a defined key: other case, `-`/`_` swapped or dropped, camelCase, plural / singular, padded with
+/// white space / BOM, fullwidth, a Cyrillic look-alike first letter, dotted
+fn key_variants(k: &str) -> Vec<String> {
+    let mut v = vec![k.to_uppercase(), k.to_lowercase(), k.replace('-', "_"), k.replace('_', "-"), k.replace(['-', '_'], ""), format!("{k}s"), format!(" {k}"), format!("{k} "),
+        format!("{k}\n"), format!("\u{feff}{k}"), fullwidth(k), format!("{k}."), format!(".{k}"), format!("{k}.{k}")];
+    let mut cs: Vec<char> = k.chars().collect();
+    if let Some(c) = cs.first_mut() { *c = c.to_ascii_uppercase(); }
+    v.push(cs.iter().collect());
+    // camelCase
+    let mut camel = String::new(); let mut up = false;
+    for c in k.chars() { if c == '-' || c == '_' { up = true; } else if up { camel.push(c.to_ascii_uppercase()); up = false; } else { camel.push(c); } }
+    v.push(camel);
+    if let Some(st) = k.strip_suffix('s') { v.push(st.to_string()); }
+    let look = [('a', '\u{430}'), ('c', '\u{441}'), ('e', '\u{435}'), ('o', '\u{43e}'), ('p', '\u{440}'), ('i', '\u{456}'), ('s', '\u{455}'), ('k', '\u{212a}'), ('d', '\u{501}'), ('n', '\u{578}'), ('u', '\u{57d}')];
+    let mut cs: Vec<char> = k.chars().collect();
+    if let Some(c) = cs.first_mut() { if let Some((_, l)) = look.iter().find(|(a, _)| a == c) { *c = *l; v.push(cs.iter().collect()); } }
+    v.retain(|x| x != k);
+    v.sort(); v.dedup();
+    v
+}
+/// names a reader might also look for, whatever the table
+const FOREIGN_KEYS: &[&str] = &["", " ", "\u{43a}\u{43b}\u{44e}\u{447}", "\u{65e5}\u{672c}", "a.b", "a b", "#", "=", "0", "true", "metadata", "Metadata", "order", "Order", "targets", "stacks", "group", "api", "buildpack",
+    "id", "version", "name", "type", "uri", "os", "arch", "entries", "processes", "types", "launch", "default", "optional", "mixins", "distros", "key", "value", "paths"];
+
+/// one value of every TOML kind
+fn every_kind() -> Vec<Value> {
+    let mut t = toml::Table::new(); t.insert("k".into(), Value::String("v".into()));
+    vec![Value::String("x".into()), Value::String(String::new()), Value::Integer(1), Value::Boolean(true), Value::Boolean(false), Value::Float(1.5), Value::Datetime("1979-05-27T07:32:00Z".parse().unwrap()),
+        Value::Array(vec![]), Value::Array(vec![Value::String("x".into())]), Value::Table(toml::Table::new()), Value::Table(t)]
+}
+
+/// values a string field may be given, by the key it sits under (`None`: an array element): the field's own vocabulary in
+/// several spellings, then shapes any string may take
+fn string_pool(ty: &str, key: Option<&str>, parent: Option<&str>, thorough: bool) -> Vec<String> {
+    let mut v: Vec<String> = vec![];
+    let mut add = |xs: &[&str]| v.extend(xs.iter().map(|x| x.to_string()));
+    match (key, parent) {
+        (Some("os"), _) => add(&["linux", "windows", "Linux", "LINUX", "Windows", "WINDOWS", "darwin", "freebsd", "linux ", " windows", "win32", "*"]),
+        (Some("arch"), _) => add(&["amd64", "arm64", "arm", "386", "x86_64", "aarch64", "AMD64", "ppc64le", "s390x", "riscv64", "*"]),
+        (Some("variant"), _) => add(&["v6", "v7", "v8", "V8", "v8.2"]),
+        (Some("api"), _) => add(&["0.10", "0.9", "0.11", "0.12", "0.8", "1.0", "1", "0", "00.010", "10.0", "0.10.0", "0.1e1", "+0.10", "v0.10", "0.18446744073709551615", "0.18446744073709551616", "0.", ".10", "0,10", "0.10 ", " 0.10", "0.\u{661}"]),
+        (Some("version"), Some("distros")) => add(&["24.04", "22.04", "3.19", "bookworm", "12", "*"]),
+        (Some("version"), _) => add(&["0.0.0", "1.2.3", "01.2.3", "1.02.3", "1.2", "1.2.3.4", "v1.2.3", "1.2.3-rc1", "1.2.3+b", "18446744073709551615.0.0", "18446744073709551616.0.0", "+1.2.3", " 1.2.3", "1.2.3\n", "1..3", "1.2.\u{663}", "*"]),
+        (Some("id"), Some("stacks")) => add(&["*", "heroku-24", "io.buildpacks.stacks.jammy", "**", " *"]),
+        (Some("id"), _) => add(&["app", "App", "APP", "config", "Config", "sbom", "Sbom", "build", "launch", "store", "a/b", "a b", "a_b", "\u{e9}", "heroku/nodejs-engine", "io.buildpacks.x", "-", ".", "/", "a/", "app/", "sbom.x"]),
+        (Some("type"), Some("processes")) => add(&["web", "Web", "WEB", "worker", "a.b_c-d", "a/b", "\u{e9}", " web", "web ", "web\n", "-", ".", "_", "build", "launch"]),
+        (Some("working-dir"), _) => add(&[".", "/", "./", "..", "a/./b", "/workspace", "rel/dir", " .", "~", "C:\\x", "dir with space/\u{e9}"]),
+        (None, Some("sbom-formats")) => add(&["application/vnd.cyclonedx+json", "application/spdx+json", "application/vnd.syft+json", "application/VND.cyclonedx+json", "Application/spdx+json", "application/json", "application/spdx+json ", "spdx", "cdx"]),
+        _ => {}
+    }
+    add(&["", " ", " padded ", "x\n", "x\r\n", "\n", "\u{feff}x", "x\u{feff}", "\u{0}", "a\u{0}b", "\u{e9}", "e\u{301}", "\u{ff57}\u{ff45}\u{ff42}", "true", "false", "0", "1.0", "1979-05-27", "[]", "{}", "*", ".", "..", "/", "A", "null", "nil", "\"quoted\"", "'single'", "tab\there", "\u{1f980}", "\u{202e}rtl", "%20", "a+b", "-x", "\\",
+        "# not a comment", "a # b", "[table]", "[[x]]", "key = value", "'''", "\"\"\"", "a\\nb", "trailing \\", "{ inline = 1 }", "line1\nline2\n", "  indented\n\ttabbed"]);
+    v.push(long_string(255)); v.push(long_string(256)); v.push(long_string(257)); v.push(long_string(4096));
+    if thorough { v.push(long_string(65535)); v.push(long_string(65536)); v.push(long_string(65537)); }
+    let _ = ty;
+    v.sort(); v.dedup();
+    v
+}
+
+/// `rich`: additionally the directed families that go with the maximal documents only (undefined keys in many spellings and
+/// with every value kind, value pools for every scalar, the empty value of every kind, duplicated array elements, more retypes)
+fn mutations_x(ty: &str, doc: &Value, rich: bool, thorough: bool) -> Vec<(String, Value)> {
     let mut out = vec![];
     let mut all = vec![];
     nodes(doc, &mut vec![], &mut all);
@@ -305,6 +397,45 @@ fn mutations(ty: &str, doc: &Value) -> Vec<(String, Value)> {
                 let mut d = doc.clone();
                 at(&mut d, p).as_table_mut().unwrap().insert(k.into(), val);
                 out.push((format!("unknown-key/{zone}"), d));
+            }
+            if rich {
+                let t = node.as_table().unwrap();
+                // 1b. the undefined key with a value of every kind
+                for val in every_kind() { let mut d = doc.clone(); at(&mut d, p).as_table_mut().unwrap().insert("zz-undefined".into(), val); out.push((format!("unknown-key-kinds/{zone}"), d)); }
+                // 1c. undefined keys spelled almost like the table's own keys, and names defined elsewhere in the formats
+                //     (inside free-form tables, where every key is to be kept: five odd names only)
+                let mut names: Vec<String> = vec![];
+                if zone == "typed" { for k in t.keys() { names.extend(key_variants(k)); } names.extend(FOREIGN_KEYS.iter().map(|x| x.to_string())); }
+                else { names.extend(["", "\u{43a}\u{43b}\u{44e}\u{447}", "a.b", "metadata", "Id"].iter().map(|x| x.to_string())); }
+                names.sort(); names.dedup();
+                // 1d. a defined key renamed to a close spelling (the key itself then is missing and an undefined one present)
+                if zone == "typed" {
+                    for k in t.keys() {
+                        let mut close = vec![k.to_uppercase(), k.replace('-', "_"), k.replace('_', "-"), k.replace(['-', '_'], ""), format!("{k}s")];
+                        let mut cs: Vec<char> = k.chars().collect();
+                        if let Some(c) = cs.first_mut() { *c = c.to_ascii_uppercase(); }
+                        close.push(cs.iter().collect());
+                        let mut camel = String::new(); let mut up = false;
+                        for c in k.chars() { if c == '-' || c == '_' { up = true; } else if up { camel.push(c.to_ascii_uppercase()); up = false; } else { camel.push(c); } }
+                        close.push(camel);
+                        if let Some(st) = k.strip_suffix('s') { close.push(st.to_string()); }
+                        close.sort(); close.dedup();
+                        for v in close.iter().filter(|v| *v != k && !t.contains_key(v.as_str())) {
+                            if p.is_empty() && ty.ends_with("BuildpackDescriptor") && ["order", "targets", "stacks"].contains(&v.as_str()) { continue; }
+                            let mut d = doc.clone();
+                            let tab = at(&mut d, p).as_table_mut().unwrap();
+                            let val = tab.remove(k).unwrap();
+                            tab.insert(v.clone(), val);
+                            out.push((format!("rename-key/{zone}"), d));
+                        }
+                    }
+                }
+                for name in names.iter().filter(|n| !t.contains_key(n.as_str())) {
+                    // top-level order / targets / stacks of a descriptor are family 5's business
+                    if p.is_empty() && ty.ends_with("BuildpackDescriptor") && ["order", "targets", "stacks"].contains(&name.as_str()) { continue; }
+                    let val = if name.to_lowercase().contains("metadata") { Value::Table(toml::Table::new()) } else { Value::String("x".into()) };
+                    let mut d = doc.clone(); at(&mut d, p).as_table_mut().unwrap().insert(name.clone(), val); out.push((format!("unknown-key-variant/{zone}"), d));
+                }
             }
         }
         // 2. delete every key / 3. delete every array element
@@ -323,6 +454,47 @@ fn mutations(ty: &str, doc: &Value) -> Vec<(String, Value)> {
                 Value::Table(_) => vec![Value::String("x".into()), Value::Array(vec![]), Value::Boolean(false)],
             };
             for r in retyped { let mut d = doc.clone(); *at(&mut d, p) = r; out.push((format!("retype/{zone}"), d)); }
+            if rich {
+                // 4a. more kinds and boundary numbers: floats and datetimes where strings are expected (`api = 0.10`), i64 bounds,
+                //     non-finite floats, arrays / tables with content
+                let dt = |t: &str| Value::Datetime(t.parse().unwrap());
+                let mut tab = toml::Table::new(); tab.insert("k".into(), Value::String("v".into()));
+                let more: Vec<Value> = vec![Value::Float(0.10), Value::Float(1.0), Value::Float(-0.0), Value::Float(f64::INFINITY), Value::Float(f64::NEG_INFINITY), Value::Float(f64::NAN), Value::Float(1e300), Value::Float(5e-324),
+                    Value::Integer(0), Value::Integer(1), Value::Integer(-1), Value::Integer(i64::MAX), Value::Integer(i64::MIN), Value::Integer(1 << 53), Value::Boolean(false),
+                    dt("1979-05-27T07:32:00Z"), dt("1979-05-27"), dt("07:32:00"), dt("1979-05-27T00:32:00.999999-07:00"),
+                    Value::Array(vec![Value::Integer(1), Value::String("two".into())]), Value::Array(vec![Value::Array(vec![])]), Value::Table(tab), Value::String(String::new())];
+                let here = to_wire(node);
+                // (a datetime in place of the free-form `metadata` table is accepted by the code: known finding C08-F5, the toml crate hands a
+                // datetime to serde as the one-key map { "$__toml_private_datetime" = "<text>" }, which `toml::Table` reads)
+                for (j, r) in more.into_iter().enumerate() {
+                    if to_wire(&r) == here { continue; }
+                    // inside free-form values (kept verbatim whatever they are) a quarter of the list
+                    if zone == "free" && !matches!(p.last(), Some(Seg::Key(k)) if k == "metadata") && j % 4 != 0 { continue; }
+                    let mut d = doc.clone(); *at(&mut d, p) = r; out.push((format!("retype-more/{zone}"), d));
+                }
+                // 4d. value pools: every string by the vocabulary of its key and by the shapes any string may take
+                if let Value::String(sv) = node {
+                    let key = p.iter().rev().find_map(|s| if let Seg::Key(k) = s { Some(k.as_str()) } else { None });
+                    let keys: Vec<&str> = p.iter().filter_map(|s| if let Seg::Key(k) = s { Some(k.as_str()) } else { None }).collect();
+                    let is_elem = matches!(p.last(), Some(Seg::Idx(_)));
+                    let parent = if is_elem { keys.last().copied() } else if keys.len() >= 2 { Some(keys[keys.len() - 2]) } else { None };
+                    let uri_of_package = ty == "PackageDescriptor" && key == Some("uri");
+                    if !uri_of_package {
+                        let pool = if zone == "free" { vec!["".to_string(), " padded ".into(), "x\r\n".into(), "\u{feff}x".into(), "\u{0}".into(), "e\u{301}".into(), long_string(4096)] } else { string_pool(ty, if is_elem { None } else { key }, parent, thorough) };
+                        for x in pool { if x == *sv { continue; } let mut d = doc.clone(); *at(&mut d, p) = Value::String(x); out.push((format!("value-pool/{zone}"), d)); }
+                    }
+                }
+                // 4e. the empty value of the node's own kind (optional key present but empty / at its default)
+                let empty = match node { Value::String(_) => Value::String(String::new()), Value::Integer(_) => Value::Integer(0), Value::Float(_) => Value::Float(0.0), Value::Boolean(b) => Value::Boolean(!*b),
+                    Value::Datetime(_) => dt("0000-01-01"), Value::Array(_) => Value::Array(vec![]), Value::Table(_) => Value::Table(toml::Table::new()) };
+                if to_wire(&empty) != here { let mut d = doc.clone(); *at(&mut d, p) = empty; out.push((format!("empty-value/{zone}"), d)); }
+                // 4f. duplicated array elements (first again at the end, last again at the front, every element twice)
+                if let Value::Array(a) = node { if !a.is_empty() {
+                    let mut d1 = doc.clone(); at(&mut d1, p).as_array_mut().unwrap().push(a[0].clone()); out.push((format!("duplicate-element/{zone}"), d1));
+                    let mut d2 = doc.clone(); at(&mut d2, p).as_array_mut().unwrap().insert(0, a[a.len() - 1].clone()); out.push((format!("duplicate-element/{zone}"), d2));
+                    let mut d3 = doc.clone(); *at(&mut d3, p) = Value::Array(a.iter().flat_map(|x| [x.clone(), x.clone()]).collect()); out.push((format!("duplicate-element/{zone}"), d3));
+                } }
+            }
             // 4b. the two shapes serde's data model also reads: a struct as a positional array, a unit-variant enum as { variant = {} }
             if let Value::Table(t) = node {
                 for o in DECL_ORDERS.iter().filter(|o| !t.is_empty() && t.keys().all(|k| o.contains(&k.as_str()))) {
@@ -388,6 +560,73 @@ fn case(ty: &str, doc: &Value, kind: &str, nontrivial: bool) -> Case {
     let depth = { let mut all = vec![]; nodes(doc, &mut vec![], &mut all); all.iter().map(Vec::len).max().unwrap_or(0) };
     Case { fields: vec![ty.to_string(), to_wire(doc)], tags: vec![("kind".into(), kind.into()), ("type".into(), ty.into()), ("depth".into(), depth.min(9).to_string())], nontrivial }
 }
+/// the same document carried as TOML text in the given layout (third field)
+fn case_layout(ty: &str, doc: &Value, kind: &str, st: &Style, style_tag: &str, r: &mut Rng) -> Case {
+    let text = tomllayout::emit(doc.as_table().unwrap(), st, r);
+    let mut c = case(ty, doc, kind, true);
+    c.fields.push(hex(text.as_bytes()));
+    c.tags.push(("layout".into(), style_tag.into()));
+    c
+}
+
+// ---------------------------------------------------------------- big documents
+fn s(x: &str) -> Value { Value::String(x.into()) }
+fn tbl(kv: Vec<(&str, Value)>) -> Value { let mut t = toml::Table::new(); for (k, v) in kv { t.insert(k.into(), v); } Value::Table(t) }
+fn arr(n: usize, f: impl Fn(usize) -> Value) -> Value { Value::Array((0..n).map(f).collect()) }
+fn bp_table(id: &str, n: usize) -> Value {
+    tbl(vec![("id", s(id)), ("version", s("1.2.3")), ("name", s("Big")), ("keywords", arr(n, |i| s(&format!("kw{i}")))),
+        ("licenses", arr(n, |i| tbl(vec![("type", s(&format!("L-{i}"))), ("uri", s(&format!("https://example.tld/{i}")))]))),
+        ("sbom-formats", arr(n, |i| s(["application/vnd.cyclonedx+json", "application/spdx+json", "application/vnd.syft+json"][i % 3])))])
+}
+/// documents whose arrays / tables hold `n` elements: (type, document)
+fn big_docs(n: usize) -> Vec<(&'static str, Value)> {
+    let wide = |n: usize| { let mut t = toml::Table::new(); for i in 0..n { t.insert(format!("key-{i:05}"), if i % 3 == 0 { Value::Integer(i as i64) } else { s(&format!("v{i}")) }); } Value::Table(t) };
+    let deep = |d: usize| { let mut v = tbl(vec![("leaf", Value::Integer(1))]); for i in 0..d { v = if i % 4 == 3 { tbl(vec![("list", Value::Array(vec![v, Value::Integer(i as i64)]))]) } else { tbl(vec![("t", v)]) }; } v };
+    let launch = tbl(vec![
+        ("processes", arr(n, |i| tbl(vec![("type", s(&format!("p{i}"))), ("command", arr(1 + i % 3, |j| s(&format!("c{j}")))), ("args", arr(i % 4, |j| s(&format!("a{j}")))), ("default", Value::Boolean(i + 1 == n))]))),
+        ("labels", arr(n, |i| tbl(vec![("key", s(&format!("k{i}"))), ("value", s(&format!("v{i}")))]))),
+        ("slices", arr(n, |i| tbl(vec![("paths", arr(1 + i % 2, |j| s(&format!("dir{i}/{j}/**"))))]))),
+    ]);
+    let plan = tbl(vec![("entries", arr(n, |i| if i % 5 == 4 { tbl(vec![("name", s(&format!("e{i}")))]) } else { tbl(vec![("name", s(&format!("e{i}"))), ("metadata", tbl(vec![("version", s(&format!("{i}.0"))), ("n", Value::Integer(i as i64))]))]) }))]);
+    let composite = tbl(vec![("api", s("0.10")), ("buildpack", bp_table("big/meta", 2)),
+        ("order", Value::Array((0..n).map(|i| tbl(vec![("group", arr(if i == 0 { n } else { 1 + i % 3 }, |j| tbl(vec![("id", s(&format!("g/{i}-{j}"))), ("version", s(&format!("{i}.{j}.0"))), ("optional", Value::Boolean(j % 2 == 1))])))])).collect()))]);
+    let component = tbl(vec![("api", s("0.10")), ("buildpack", bp_table("big/component", n)),
+        ("targets", arr(n, |i| tbl(vec![("os", s("linux")), ("arch", s(["amd64", "arm64"][i % 2])), ("distros", arr(if i == 0 { n } else { i % 3 }, |j| tbl(vec![("name", s("ubuntu")), ("version", s(&format!("{j}.04")))])))]))),
+        ("stacks", arr(n, |i| tbl(vec![("id", s(&format!("stack-{i}"))), ("mixins", arr(i % 3, |j| s(&format!("m{j}"))))]))),
+        ("metadata", wide(n))]);
+    let package = tbl(vec![("buildpack", tbl(vec![("uri", s("."))])), ("dependencies", arr(n, |i| tbl(vec![("uri", s(&format!("libcnb:dep/number-{i}")))])))]);
+    let store = tbl(vec![("metadata", tbl(vec![("wide", wide(n)), ("deep", deep(n.min(40)))]))]);
+    let layer = tbl(vec![("types", tbl(vec![("launch", Value::Boolean(true))])), ("metadata", tbl(vec![("wide", wide(n)), ("list", arr(n, |i| Value::Integer(i as i64)))]))]);
+    vec![("Launch", launch), ("BuildpackPlan", plan), ("CompositeBuildpackDescriptor", composite.clone()), ("BuildpackDescriptor", composite), ("ComponentBuildpackDescriptor", component.clone()),
+        ("BuildpackDescriptor", component), ("PackageDescriptor", package), ("Store", store), ("LayerContentMetadata", layer)]
+}
+/// single-point mutations inside the first, the middle and the last element of every array of tables that holds `n` elements
+fn big_mutations(doc: &Value, n: usize) -> Vec<(String, Value)> {
+    let mut out = vec![];
+    let mut all = vec![];
+    nodes(doc, &mut vec![], &mut all);
+    for p in all.iter().filter(|p| !in_free_form(p)) {
+        let Value::Array(a) = get(doc, p) else { continue };
+        if a.len() != n { continue; }
+        // large documents: the last element only
+        for i in if n >= 200 { vec![n - 1] } else { vec![0, n / 2, n - 1] } {
+            let mut q = p.clone(); q.push(Seg::Idx(i));
+            match &a[i] {
+                Value::Table(t) => {
+                    let mut d = doc.clone(); at(&mut d, &q).as_table_mut().unwrap().insert("zz-undefined".into(), s("x")); out.push(("big:unknown-key".into(), d));
+                    // one key of the element (a different one at each position) deleted and retyped
+                    let keys: Vec<&String> = t.keys().collect();
+                    if let Some(k) = keys.get(i % keys.len().max(1)) {
+                        let mut d = doc.clone(); at(&mut d, &q).as_table_mut().unwrap().remove(*k); out.push(("big:delete-key".into(), d));
+                        let mut d = doc.clone(); at(&mut d, &q).as_table_mut().unwrap().insert((*k).clone(), if t[*k].is_integer() { s("7") } else { Value::Integer(7) }); out.push(("big:retype".into(), d));
+                    }
+                }
+                _ => { let mut d = doc.clone(); *at(&mut d, &q) = if a[i].is_integer() { s("7") } else { Value::Integer(7) }; out.push(("big:retype".into(), d)); }
+            }
+        }
+    }
+    out
+}
 
 fn generate(tier: &str, seed: u64, emit: &mut dyn FnMut(Case)) {
     let thorough = tier == "thorough";
@@ -399,11 +638,15 @@ fn generate(tier: &str, seed: u64, emit: &mut dyn FnMut(Case)) {
         ("BuildpackTarget", TARGET), ("BuildpackPlan", ""), ("Launch", ""), ("LayerContentMetadata", ""), ("Store", "[metadata]\n"),
     ];
     let mut idx = 0u64;
+    // layouts draw from their own stream so that the families above keep their cases whatever is added here
+    let mut lidx = 0u64;
+    let mut layout_rng = |seed: u64| { lidx += 1; Rng::for_case(seed ^ 0x1A70_C08, lidx) };
     for (ty, text) in &bases {
         let doc: Value = Value::Table(toml::from_str::<toml::Table>(text).unwrap());
         emit(case(ty, &doc, "base", false));
-        // (a) every single-point mutation of the maximal document
-        for (k, d) in mutations(ty, &doc) { emit(case(ty, &d, &k, true)); }
+        // (a) every single-point mutation of the maximal document, with the directed families (rich)
+        let first = mutations_x(ty, &doc, true, thorough);
+        for (k, d) in &first { emit(case(ty, d, k, true)); }
         // (b) all optional-key subsets, table by table
         let subs = key_subsets(&doc);
         for d in &subs { emit(case(ty, d, "key-subset", true)); }
@@ -428,6 +671,35 @@ fn generate(tier: &str, seed: u64, emit: &mut dyn FnMut(Case)) {
                 let _ = j;
                 for _ in 0..8 { let (k2, d2) = &second[r.below(second.len() as u64) as usize]; emit(case(ty, d2, &format!("two-point:{k1}&{k2}"), true)); }
             }
+        }
+        // (e) the same logical documents in other TOML layouts (third field = the text): the base document in every directed
+        //     style (one feature each) and in seeded random styles; every key-subset document and every single-point mutation
+        //     (rich ones included) in 1 (quick) / 4 (thorough) random styles
+        for k in 0..Style::N_DIRECTED { let st = Style::directed(k); let mut r = layout_rng(seed); emit(case_layout(ty, &doc, "layout:base", &st, &st.tag(), &mut r)); }
+        for _ in 0..(if thorough { 300 } else { 40 }) { let mut r = layout_rng(seed); let st = Style::random(&mut r); emit(case_layout(ty, &doc, "layout:base", &st, "random", &mut r)); }
+        let reps = if thorough { 4 } else { 1 };
+        for d in &subs { for _ in 0..reps { let mut r = layout_rng(seed); let st = Style::random(&mut r); emit(case_layout(ty, d, "layout:key-subset", &st, "random", &mut r)); } }
+        for (k, d) in &first {
+            // value pools are about the value, not the layout: one in four of them is enough here
+            //   (likewise the added retypes; undefined keys in other spellings: one in two)
+            let keep = if k.starts_with("value-pool") || k.starts_with("retype-more") { 4 } else if k.starts_with("unknown-key-variant") { 2 } else { 1 };
+            for _ in 0..reps { let mut r = layout_rng(seed); if !r.chance(1, keep) { continue; } let st = Style::random(&mut r); emit(case_layout(ty, d, &format!("layout:{k}"), &st, "random", &mut r)); }
+        }
+    }
+    // (f) big documents: arrays of n processes / labels / slices / plan entries / order groups / targets / distros / stacks / keywords /
+    //     licenses / dependencies and metadata tables n keys wide (and up to 40 levels deep), n straddling 16, 20, 32, 64, 128, 256
+    //     (thorough: 512, 1000, 1024); the valid document (toml crate's spelling and two layouts) and single-point mutations inside
+    //     the first, middle and last element of every n-element array
+    let mut sizes: Vec<usize> = vec![16, 17, 20, 21, 32, 33, 64, 65, 128, 129, 256, 257];
+    let mutate_at: &[usize] = if thorough { &[16, 17, 20, 21, 32, 33, 64, 65, 128, 129, 256, 257, 513, 1025] } else { &[17, 33, 65, 257] };
+    if thorough { sizes.extend([512, 513, 1000, 1024, 1025]); }
+    for n in sizes {
+        for (ty, doc) in big_docs(n) {
+            let mut c = case(ty, &doc, "big:valid", true); c.tags.push(("n".into(), n.to_string())); emit(c);
+            for k in if n >= 128 { vec![1usize] } else { vec![1usize, 3] } { let st = Style::directed(k); let mut r = layout_rng(seed); let mut c = case_layout(ty, &doc, "big:valid-layout", &st, &st.tag(), &mut r); c.tags.push(("n".into(), n.to_string())); emit(c); }
+            { let mut r = layout_rng(seed); let st = Style::random(&mut r); let mut c = case_layout(ty, &doc, "big:valid-layout", &st, "random", &mut r); c.tags.push(("n".into(), n.to_string())); emit(c); }
+            // mutations at 17, 33, 65, 257 only (quick) - the documents are large and every identifier in them compiles a regex
+            if mutate_at.contains(&n) { for (k, d) in big_mutations(&doc, n) { let mut c = case(ty, &d, &k, true); c.tags.push(("n".into(), n.to_string())); emit(c); } }
         }
     }
 }
